@@ -2,6 +2,7 @@ package main
 
 import (
 	"fmt"
+	"os"
 	"sort"
 	"strings"
 )
@@ -40,11 +41,15 @@ func compileArgv(targets []string, long bool, subcommand bool, abs bool) []strin
 }
 
 // compileArgvDirs is compileArgv with an explicit output directory per target.
+// mixAbs makes compileArgvDirs spell every other output directory absolute.
+var mixAbsKey = "\x00mix"
+
 func compileArgvDirs(targets []string, dirs map[string]string, long bool, subcommand bool, abs bool) []string {
 	argv := compileArgv(nil, long, subcommand, abs)
-	for _, t := range targets {
+	_, mix := dirs[mixAbsKey]
+	for k, t := range targets {
 		d := dirs[t]
-		if abs {
+		if abs != (mix && k%2 == 1) {
 			d = "{SB}/" + d
 		}
 		if long {
@@ -59,6 +64,10 @@ func compileArgvDirs(targets []string, dirs map[string]string, long bool, subcom
 // layoutDirs maps targets to output directories for the non-default layouts.
 func layoutDirs(layout string, ts []string) map[string]string {
 	dirs := map[string]string{}
+	if strings.HasSuffix(layout, "+mixed-abs") {
+		layout = strings.TrimSuffix(layout, "+mixed-abs")
+		dirs[mixAbsKey] = ""
+	}
 	for k, t := range ts {
 		switch layout {
 		case "shared-root":
@@ -230,6 +239,47 @@ func staleDisk(text string, ref *CLIOutcome) []DiskEntry {
 	return disk
 }
 
+// fakeTools: executables named like formatters, linters and info commands a
+// code generator might shell out to "when installed". Each one marks every
+// existing file it is given and prints a recognisable line.
+var fakeToolNames = []string{"clang-format", "gofmt", "goimports", "rustfmt", "black", "autopep8", "yapf", "prettier", "google-java-format", "stylua", "lua-format", "astyle", "cpplint", "git", "hostname", "uname", "whoami", "date"}
+
+func fakeTools() []DiskEntry {
+	var out []DiskEntry
+	for _, n := range fakeToolNames {
+		script := "#!/bin/sh\necho \"FAKE-TOOL " + n + " $*\"\nfor a in \"$@\"; do if [ -f \"$a\" ]; then printf '\\n// touched by " + n + "\\n' >> \"$a\"; fi; done\nexit 0\n"
+		out = append(out, DiskEntry{Path: ".fakebin/" + n, Kind: "file", Data: []byte(script), Mode: 0o755})
+	}
+	return out
+}
+
+// rerunDisks builds the two initial disks and the pre-step of a
+// rerun-after-edit pair for a given program text.
+func rerunDisks(text string, w0, wi *CLIWorld) (ref, first []DiskEntry, pre []PreStep) {
+	const stamp = 1700000000
+	dirs := []DiskEntry{{Path: "home/.cache", Kind: "dir"}, {Path: "home/.config", Kind: "dir"}, {Path: "tmp", Kind: "dir"}}
+	earlier := sameLengthEdit(text)
+	ref = append([]DiskEntry{{Path: "in.dsl", Kind: "file", Data: []byte(text), MtimeUnix: stamp}}, dirs...)
+	if earlier == text {
+		return ref, ref, nil
+	}
+	first = append([]DiskEntry{{Path: "in.dsl", Kind: "file", Data: []byte(earlier), MtimeUnix: stamp}}, dirs...)
+	pre = []PreStep{{Argv: wi.Argv, After: []DiskEntry{{Path: "in.dsl", Kind: "file", Data: []byte(text), MtimeUnix: stamp}}}}
+	return
+}
+
+// sameLengthEdit returns a revision of the program that differs in content
+// but not in length: one basic type swapped for another of equal spelling
+// length (u16 <-> i16, u32 <-> i32 ...).
+func sameLengthEdit(text string) string {
+	for _, pair := range [][2]string{{" u16 ", " i16 "}, {" u32 ", " i32 "}, {" u64 ", " i64 "}, {" i16 ", " u16 "}, {" i32 ", " u32 "}, {" u8 ", " i8 "}, {" i8 ", " u8 "}, {" f32 ", " u32 "}, {" uint16 ", " uint32 "}, {" int32 ", " int64 "}} {
+		if i := strings.Index(text, pair[0]); i >= 0 {
+			return text[:i] + pair[1] + text[i+len(pair[0]):]
+		}
+	}
+	return text
+}
+
 func variedEnv(r *Rng) []string {
 	return []string{
 		"TZ=" + r.Pick([]string{"Pacific/Kiritimati", "Etc/GMT+12", "Asia/Shanghai", "America/New_York"}),
@@ -306,7 +356,10 @@ func c13CLI(c *Ctx, n int) error {
 		}{"env-vary", func(s *SchedConfig) { s.EnvMode = "vary" }}, struct {
 			name string
 			f    func(*SchedConfig)
-		}{"stdout-devfull", func(s *SchedConfig) {}})
+		}{"stdout-devfull", func(s *SchedConfig) {}}, struct {
+			name string
+			f    func(*SchedConfig)
+		}{"rerun-after-edit", func(s *SchedConfig) {}})
 		for k, cf := range cfgs {
 			cfg := s0()
 			cfg.Seed = SubSeed(seed, cf.name, k)
@@ -316,6 +369,27 @@ func c13CLI(c *Ctx, n int) error {
 				wi.Disk0 = staleDisk(text, o0)
 				c.ev.Fire("disk0_stale_files", 1)
 			}
+			if cf.name == "rerun-after-edit" {
+				// durable state across runs: an earlier revision of the DSL (same
+				// path, same length, same modification time) was compiled with the
+				// same flags, HOME and the cache directory live inside the sandbox;
+				// then the file is replaced and the identical command runs again
+				earlier := sameLengthEdit(text)
+				if earlier == text {
+					continue
+				}
+				const stamp = 1700000000
+				homeEnv := []string{"HOME={SB}/home", "XDG_CACHE_HOME={SB}/home/.cache", "XDG_CONFIG_HOME={SB}/home/.config", "TMPDIR={SB}/tmp"}
+				dirs := []DiskEntry{{Path: "home/.cache", Kind: "dir"}, {Path: "home/.config", Kind: "dir"}, {Path: "tmp", Kind: "dir"}}
+				w0.Env, w0.Disk0 = homeEnv, append([]DiskEntry{{Path: "in.dsl", Kind: "file", Data: []byte(text), MtimeUnix: stamp}}, dirs...)
+				if o0, err = c.sc.RunCLI(w0); err != nil {
+					return err
+				}
+				wi.Env = homeEnv
+				wi.Disk0 = append([]DiskEntry{{Path: "in.dsl", Kind: "file", Data: []byte(earlier), MtimeUnix: stamp}}, dirs...)
+				wi.Pre = []PreStep{{Argv: argv, After: []DiskEntry{{Path: "in.dsl", Kind: "file", Data: []byte(text), MtimeUnix: stamp}}}}
+				c.ev.Fire("rerun_over_durable_state", 1)
+			}
 			if cf.name == "stdout-devfull" {
 				// the same command with a standard output on which every write fails
 				wi.StdoutKind = "devfull"
@@ -324,8 +398,10 @@ func c13CLI(c *Ctx, n int) error {
 			if cf.name == "env-vary" {
 				// same DSL, same flags, another user's shell on another day: the
 				// process environment is part of "process", not of the input
-				wi.Env = variedEnv(r)
+				wi.Env = append(variedEnv(r), "PATH={SB}/.fakebin:"+os.Getenv("PATH"))
+				wi.Disk0 = append(append([]DiskEntry{}, wi.Disk0...), fakeTools()...)
 				c.ev.Fire("process_environment_varied", 1)
+				c.ev.Fire("external_tools_on_PATH", 1)
 			}
 			oi, err := c.sc.RunCLI(wi)
 			if err != nil {
@@ -386,6 +462,15 @@ func (c *Ctx) candidate13CLI(caseIdx int, prog *Prog, w0, wi *CLIWorld, sname, t
 		a, b := *w0, *wi
 		a.Disk0 = []DiskEntry{{Path: "in.dsl", Kind: "file", Data: []byte(p.Render())}}
 		b.Disk0 = a.Disk0
+		if sname == "rerun-after-edit" {
+			a.Disk0, b.Disk0, b.Pre = rerunDisks(p.Render(), w0, wi)
+			if b.Pre == nil {
+				return false, nil, nil, nil
+			}
+		}
+		if sname == "env-vary" {
+			b.Disk0 = append(append([]DiskEntry{}, a.Disk0...), fakeTools()...)
+		}
 		oa, err := c.sc.RunCLI(&a)
 		if err != nil || oa.TimedOut {
 			return false, nil, nil, nil
@@ -419,6 +504,12 @@ func (c *Ctx) candidate13CLI(caseIdx int, prog *Prog, w0, wi *CLIWorld, sname, t
 	a, b := *w0, *wi
 	a.Disk0 = []DiskEntry{{Path: "in.dsl", Kind: "file", Data: []byte(small.Render())}}
 	b.Disk0 = a.Disk0
+	if sname == "rerun-after-edit" {
+		a.Disk0, b.Disk0, b.Pre = rerunDisks(small.Render(), w0, wi)
+	}
+	if sname == "env-vary" {
+		b.Disk0 = append(append([]DiskEntry{}, a.Disk0...), fakeTools()...)
+	}
 	if sname == "disk0-stale-output" {
 		if oa, err := c.sc.RunCLI(&a); err == nil {
 			b.Disk0 = staleDisk(small.Render(), oa)
